@@ -148,6 +148,30 @@ def render_quotation(node: Any, k: int = 0) -> list[str] | str:
 	return q
 
 
+def render_op(node: Any, path: str, k: int) -> tuple[str, str] | None:
+	"""(op line, real output) for the whole ErrorRender(Errors.X(node)).render() text: stack trace lines, class path and
+	message are taken from the real private builders (inputs of the model), the quotation and the assembly are modelled"""
+	from rogw.tranp.errors import Errors
+	from rogw.tranp.view.error_render import ErrorRender
+	cls = getattr(Errors, ERROR_CLASSES[k % len(ERROR_CLASSES)])
+	try:
+		raise cls(node)
+	except Errors.Error as e:
+		err = e
+	er = ErrorRender(err)
+	try:
+		traces = er._ErrorRender__build_stacktrace()
+		name = er._ErrorRender__build_name()
+		message = er._ErrorRender__build_message()
+	except Exception:  # noqa: BLE001 - str(node) etc. are outside this property
+		return None
+	try:
+		real = 'ok ' + hx(er.render())
+	except Exception as ex:  # noqa: BLE001
+		real = exc_enum(ex)
+	return f"renderat\t{hx(path)}\t{','.join(hx(t) for t in traces)}\t{hx(name)}\t{hx(message)}", real
+
+
 def show_quotation(q: list[str] | str) -> str:
 	if isinstance(q, str):
 		return q
@@ -225,6 +249,11 @@ def stream_nodes(ctx: Ctx) -> Stream:
 						continue
 					ops.append(f'quoteat\t{hx(p)}')
 					real.append(show_quotation(render_quotation(node, k)))
+					if k % 8 == 0:
+						ro = render_op(node, p, k)
+						if ro is not None:
+							ops.append(ro[0])
+							real.append(ro[1])
 				for _ in range(3):
 					p = rng.choice(paths) + rng.choice(['.x', '[9]', 'x'])
 					ops.append(f'smat\t{hx(p)}')
@@ -251,7 +280,8 @@ def stream_nodes(ctx: Ctx) -> Stream:
 		cases.append(({'kind': 'in-memory', 'label': f'mem#{i}', 'ops': len(ops)}, ops, real))
 	st = common.correspond('span-nodes', cases, 'span', classify=lambda d: d['kind'])
 	st.histogram['ops'] = sum(len(c[1]) for c in cases)
-	st.note = 'every sampled node (span-less, multi-line, single-line strata) of on-disk generated (tab/2/4-space indented) and real modules, fresh and restored from the cache: Nodes.source_map and the quotation inside ErrorRender(Errors.X(node)).render(); plus unknown paths and in-memory modules (no file → no quotation)'
+	st.histogram['render-ops'] = sum(1 for c in cases for o in c[1] if o.startswith('renderat'))
+	st.note = 'every sampled node (span-less, multi-line, single-line strata) of on-disk generated (tab/2/4-space indented) and real modules, fresh and restored from the cache: Nodes.source_map and the quotation inside ErrorRender(Errors.X(node)).render(); plus the whole render() text for every 8th sampled node, unknown paths and in-memory modules (no file → no quotation)'
 	return st
 
 
@@ -303,8 +333,13 @@ def span_s(t: tuple[int, int, int, int]) -> str:
 
 
 def stream_hull(ctx: Ctx) -> Stream:
-	"""The hull assumption about lark: every recorded tree span = (begin of first, end of last) lexer token lying inside
-	it, and the lexer tokens are ordered and non-overlapping (_INDENT/_DEDENT, which borrow the _NEWLINE span, left out)."""
+	"""The interface hypothesis of the hull derivation, against lark's actual token stream and metas:
+	(1) positions: (line, column) of every token = own line/column arithmetic on the parsed text at the token's offsets;
+	(2) the lexer hands out tokens left to right (offsets start ≤ end ≤ next start; _INDENT/_DEDENT, which borrow the
+	    offsets of the preceding _NEWLINE, left out);
+	(3) every tree's recorded span = (begin of first, end of last) token of a contiguous token interval [lo, hi) — filtered
+	    punctuation/keywords/_NEWLINE included — and
+	(4) the children (kept tokens and sub-trees) consume sub-intervals in order without overlap, at every depth."""
 	from rogw.tranp.syntax.ast.parser import SyntaxParser
 	import lark
 	rng = ctx.sub_rng('span-hull')
@@ -323,46 +358,99 @@ def stream_hull(ctx: Ctx) -> Stream:
 			sources.append((mp, f.read()))
 	cases = []
 	broken: list[dict[str, Any]] = []
-	skipped_none = 0
 	for label, src in sources:
 		app.source = src
+		# the parser completes a last line without line feed (parser.py `__load_source`); lex and measure the same text
+		text = src if src.endswith('\n') or src == '' else src + '\n'
 		try:
 			root = parser(app.main).source
-			# the parser completes a last line without line feed (parser.py `__load_source`); lex the same text
-			toks = [t for t in lexer_tokens(parser, src if src.endswith('\n') else src + '\n') if t.type not in ('_INDENT', '_DEDENT')]
+			toks = [t for t in lexer_tokens(parser, text) if t.type not in ('_INDENT', '_DEDENT')]
 		except Exception:  # noqa: BLE001
 			continue
-		spans = [(t.line, t.column, t.end_line, t.end_column) for t in toks]
-		py_chain = all(s[:2] <= s[2:] for s in spans) and all(a[2:] <= b[:2] for a, b in zip(spans, spans[1:]))
-		ops = ['chain\t' + (';'.join(span_s(s) for s in spans) or '-')]
-		real = ['true' if py_chain else 'false']
-		if not py_chain:
-			broken.append({'case': label, 'assumption': 'lexer tokens ordered and non-overlapping', 'real': 'false'})
+		offs = [(t.start_pos, t.end_pos) for t in toks]
+		py_off = all(a <= b for a, b in offs) and all(x[1] <= y[0] for x, y in zip(offs, offs[1:]))
+		ops = [f'file\t1\t-\t{hx(text)}', 'toks\t' + (';'.join(f'{a},{b}' for a, b in offs) or '-')]
+		real = [f'ok {count_lines(text)}', f"ok {len(offs)} {'true' if py_off else 'false'}"]
+		if not py_off:
+			broken.append({'case': label, 'assumption': 'lexer tokens come left to right without overlap', 'real': 'false'})
+		for k in (range(len(toks)) if len(toks) <= 200 else rng.sample(range(len(toks)), 200)):
+			t = toks[k]
+			ops.append(f'tokpos\t{k}')
+			real.append(f'ok {t.line},{t.column},{t.end_line},{t.end_column}')
+		by_start = {t.start_pos: k for k, t in enumerate(toks)}
+		by_end = {t.end_pos: k for k, t in enumerate(toks)}
+
+		def interval(e: Any) -> tuple[int, int] | None:
+			if type(e) is lark.Token:
+				k = by_start.get(e.start_pos)
+				return None if k is None else (k, k + 1)
+			m = e._meta
+			lo, hi = by_start.get(getattr(m, 'start_pos', None)), by_end.get(getattr(m, 'end_pos', None))
+			return None if lo is None or hi is None else (lo, hi + 1)
+
+		unaligned = [0]
+
+		def itree(e: Any, out: list[str]) -> bool:
+			"""interval tree of a non-empty tree/token; False when a span is not token-aligned"""
+			iv = interval(e)
+			if iv is None:
+				unaligned[0] += 1
+				return False
+			out.extend(['(', str(iv[0]), str(iv[1])])
+			ok = True
+			if type(e) is lark.Tree:
+				for c in e.children:
+					if c is None or (type(c) is lark.Tree and (c._meta is None or c._meta.empty)):
+						continue
+					ok = itree(c, out) and ok
+			out.append(')')
+			return ok
+
+		def py_wf(e: Any) -> bool:
+			iv = interval(e)
+			if iv is None or not iv[0] < iv[1]:
+				return False
+			pos = iv[0]
+			if type(e) is lark.Tree:
+				for c in e.children:
+					if c is None or (type(c) is lark.Tree and (c._meta is None or c._meta.empty)):
+						continue
+					ci = interval(c)
+					if ci is None or not (pos <= ci[0] < ci[1]) or not py_wf(c):
+						return False
+					pos = ci[1]
+			return pos <= iv[1]
+
 		trees_: list[Any] = []
 		stack = [root]
 		while stack:
 			t = stack.pop()
 			if type(t) is lark.Tree:
-				trees_.append(t)
+				if t._meta is not None and not t._meta.empty:
+					trees_.append(t)
 				stack.extend(t.children)
-		if len(trees_) > ctx.scale(120, 400):
-			trees_ = rng.sample(trees_, ctx.scale(120, 400))
-		for t in trees_:
+		for t in (trees_ if len(trees_) <= ctx.scale(120, 300) else rng.sample(trees_, ctx.scale(120, 300))):
 			m = t._meta
-			if m is None or m.empty:
-				continue
-			ms = (m.line, m.column, m.end_line, m.end_column)
-			if None in ms:
-				skipped_none += 1  # would be an end-of-input _DEDENT without position: outside the hull model, reported by the search
-				continue
-			inside = [s for s in spans if ms[:2] <= s[:2] and s[2:] <= ms[2:]]
-			ops.append('hull\t' + (';'.join(span_s(s) for s in inside) or '-'))
-			real.append('ok ' + span_s(ms))
-		cases.append(({'kind': 'generated' if label.startswith('generated') else 'real', 'label': label, 'tokens': len(spans)}, ops, real))
+			iv = interval(t)
+			ops.append(f'ispan\t{iv[0]}\t{iv[1]}' if iv else 'ispan\t0\t0')
+			real.append(f'ok {m.line},{m.column},{m.end_line},{m.end_column}' if iv else 'not-token-aligned')
+		if root._meta is not None and not root._meta.empty:
+			enc: list[str] = []
+			aligned = itree(root, enc)
+			if aligned:
+				wf = py_wf(root)
+				ops.append('iwf\t' + ' '.join(enc))
+				real.append('true' if wf else 'false')
+				if not wf:
+					broken.append({'case': label, 'assumption': 'children consume sub-intervals of the parent interval, in order, without overlap', 'real': 'false'})
+			else:
+				broken.append({'case': label, 'assumption': 'every recorded span begins at a token start and ends at a token end', 'real': f'{unaligned[0]} unaligned'})
+		kind = ('generated' if label.startswith('generated') else 'real') + (':' + label.split(':')[2] if label.count(':') > 1 else '')
+		cases.append(({'kind': kind, 'label': label, 'tokens': len(offs)}, ops, real))
 	st = common.correspond('span-hull', cases, 'span', classify=lambda d: d['kind'])
 	st.disagreements.extend(broken)
-	st.histogram['trees-ending-in-eof-dedent-skipped'] = skipped_none
-	st.note = "lark metas of sampled trees vs hull of the parser's own token stream (parse_interactive().exhaust_lexer(), _INDENT/_DEDENT removed) contained in the span; token stream checked to be ordered/non-overlapping"
+	st.histogram['ops'] = sum(len(c[1]) for c in cases)
+	st.note = "lark's real token stream (parse_interactive().exhaust_lexer() on the text the parser parses, _INDENT/_DEDENT removed) and real metas: token (line, column) vs own arithmetic at the token offsets; offsets left-to-right; every sampled tree's meta vs the span of its token interval [lo, hi) (found by offset, so filtered punctuation/_NEWLINE/end-of-input dedents are inside); the whole tree's interval structure vs the interface hypothesis `ITree.wf`"
 	return st
 
 
@@ -776,8 +864,14 @@ STATEMENTS = {
 	'quotation_spanless': 'a node without a source position (begin line or column < 1, e.g. the span 0,0..0,0 of placeholders) is reported without quotation (fix dc3e568; regression witness corpus/C16/spanless-node.json)',
 	'quotation': 'the whole statement for integer spans: the report is empty exactly for nodes without a position and otherwise points at the span (label, quoted line, caret columns), whenever line bl exists',
 	'quotation_none_end': 'a None end position still raises TypeError in the renderer; None positions no longer occur since fix 46d0462 (search reports any; regression witness corpus/C16/eof-dedent-span.json)',
+	'render_lines': 'in the whole render() text the quotation lines stand as lines of their own directly behind the stack trace lines and before name: message',
+	'loadLine_no_lf': 'the quoted line never contains a line feed',
 	'mark_line': 'the loaded line is the bl-th piece of readlines = the bl-th piece of split("\\n"), without line feed, every tab replaced by exactly one blank (length and columns preserved)',
 	'mark_aligned': 'quoted line and mark line are printed behind prefixes of equal width',
+	'pos_mono': '(line, column) computed from the text by own arithmetic is monotone in the character offset',
+	'tokens_chain': 'tokens handed out left to right (offsets) have ordered, non-overlapping (line, column) spans — the Chain hypothesis is derived',
+	'span_nest': 'a tree consuming the token interval [lo, hi) whose children consume sub-intervals in order (interface hypothesis wf): every child span lies inside the tree span',
+	'span_siblings': 'under the same hypothesis the spans of two children do not overlap and follow the order of the children',
 	'hull_nest': 'under the hull model (span = first..last consumed token, tokens ordered/non-overlapping) a child span lies inside the parent span',
 	'hull_siblings': 'under the hull model sibling spans are ordered and do not overlap',
 	'hull_chain_sub': 'token order is inherited by every subtree, so nesting/sibling order hold at every depth',
@@ -796,13 +890,13 @@ def run(ctx: Ctx) -> int:
 		statements=STATEMENTS,
 		partial={
 			'proved': "tranp's own span handling: span selection, minus-one shift, line loading with tab replacement, caret range (single/multi-line, empty), survival through the cache, the self-hosted collector; nesting/ordering consequences of the hull model",
-			'assumed_and_streamed': "lark's propagate_positions records span = hull of the consumed tokens (stream span-hull against lark's actual metas and token stream)",
+			'assumed_and_streamed': "only the parser's interface: tokens come left to right; a tree consumes a contiguous token interval, its children sub-intervals in order; the recorded span is (begin of first, end of last) consumed token — all checked by span-hull against lark's actual token stream and metas; nesting/sibling order and the position arithmetic are proved",
 			'search_only': "the region delimited by a span holds exactly the node's tokens (CPython tokenizer as oracle)",
 		},
 		assumptions=[
-			"lark's propagate_positions: tree span = (begin of first, end of last) consumed token incl. filtered ones; lexer tokens ordered and non-overlapping; _INDENT/_DEDENT borrow the _NEWLINE span (validated by span-hull)",
+			"interface of lark's LALR parse with propagate_positions (validated by span-hull on every run): token offsets left to right; a tree consumes a contiguous token interval [lo, hi) incl. filtered tokens, children consume sub-intervals in order; recorded span = (begin of token lo, end of token hi−1); _INDENT/_DEDENT borrow the offsets of the preceding _NEWLINE",
 			'source files are valid UTF-8 without CR; a column is a character index (tabs and wide characters count as one)',
-			'ErrorCollector._progress (repr of the token text) is not modelled',
+			'ErrorCollector._progress (repr of the token text) is not modelled; of ErrorRender.render the assembly and the quotation are modelled, the stack trace lines (regex over traceback text), the class path and str(node) are inputs',
 		],
 		trusted=['CPython tokenize as the independent oracle for token boundaries', "lark's LALR parser/contextual lexer/PythonIndenter (third-party)"])
 
